@@ -155,6 +155,25 @@ Theorem C07_tables_limbs :
   forallb (fun l => negb (N.eqb (last l 0%N) 0)) LARGE_POW5_LIMBS = true.
 Proof. exact pow5_pow10_limb_tables. Qed.
 
+(* ---- the slow path is exact (Proofs/LexRnd.v, LexBits.v, LexAtof.v, LexBh.v): for digit strings of ANY length (the truncation to
+   MAX_DIGITS digits included: no halfway point lies strictly between A*10^u and (A+1)*10^u when A has MAX_DIGITS-1 digits), whenever b
+   brackets the value from below within one unit in the last place, bhcomp returns the bits of the round-to-nearest-even oracle.
+   (proved against the code as repaired by the fix of finding F21; the F21 witness is a regression Example in LexBh.v) ---- *)
+Close Scope N_scope. Open Scope Z_scope.
+From SJ Require Import Proofs.LexAtof.
+From SJ Require Proofs.LexBh.
+Theorem C07_bhcomp_exact : forall (b : N) (integer fraction : bytes) (exponent : Z),
+  forallb is_digit integer = true -> forallb is_digit fraction = true -> (integer = [] \/ hd 0%N integer <> 48%N) ->
+  -1000000000 <= exponent <= 1000000000 -> Z.of_nat (length integer) + Z.of_nat (length fraction) <= 1000000000 ->    (* no i32 saturation *)
+  let D := digits_val (integer ++ fraction) 0 in
+  let e := exponent - Z.of_nat (length fraction) in
+  0 < D -> (b < INFINITY_BITS F64)%N ->
+  in_ulp (IZR D * powerRZ 10 e) (Z.of_N (f_mantissa F64 b)) (f_exponent F64 b) ->      (* M*2^E <= x < (M+1)*2^E for b = (M, E) *)
+  bhcomp F64 b integer fraction exponent = bits_of_b64 (rne_decimal D e).
+Proof. exact LexBh.bhcomp_correct. Qed.
+Print Assumptions C07_bhcomp_exact.
+
+
 (* ---- non-vacuity ---------------------------------------------------------------------------------------------------- *)
 Open Scope N_scope.
 Definition Efr : env := mkEnv RSlice TEof (mkCfg false true false false).
